@@ -90,18 +90,18 @@ func runPoseidon2(r *vcore.Run) {
 		r.Inconclusive("gkr-poseidon2 permuteHint not found in the hint registry")
 		return
 	}
-	sizes := []int{1, 2, 3, 4}
-	if r.Thorough() {
-		sizes = []int{1, 2, 3, 4, 5, 8, 13, 16}
-	}
 	type job struct {
 		n int
 		b string
 	}
-	var jobs []job
-	for _, n := range sizes {
-		for _, b := range builders {
-			jobs = append(jobs, job{n, b})
+	// the circuits are large (about 10^5 constraints per log2(instances)): few sizes in the quick tier
+	jobs := []job{{1, "scs"}, {1, "r1cs"}, {2, "scs"}, {2, "r1cs"}, {3, "scs"}}
+	if r.Thorough() {
+		jobs = nil
+		for _, n := range []int{1, 2, 3, 4, 5, 8} {
+			for _, b := range builders {
+				jobs = append(jobs, job{n, b})
+			}
 		}
 	}
 	vcore.Parallel(len(jobs), 4, func(ji int) {
@@ -118,11 +118,15 @@ func runPoseidon2(r *vcore.Run) {
 				err = errB
 			}
 			r.Eval(key+"/compile", true)
-			r.Violation("pos2/compile-fails", short(err), map[string]any{"n": n, "builder": b})
+			sig := "pos2/compile-fails"
+			if n == 1 && strings.Contains(err.Error(), "index out of range") {
+				sig = "compile/single-instance:verify-panics-index-out-of-range"
+			}
+			r.Violation(sig, short(err), map[string]any{"n": n, "builder": b, "circuit": "one gkr-poseidon2 Compress call"})
 			return
 		}
 		r.Count("pos2.constraints", ccsB.GetNbConstraints())
-		nSets := r.Pick(2, 4)
+		nSets := r.Pick(2, 3)
 		var a0, b0 []*big.Int
 		for vi := 0; vi < nSets; vi++ {
 			rng := r.Rand(fmt.Sprintf("%s/v%d", key, vi))
@@ -175,6 +179,20 @@ func runPoseidon2(r *vcore.Run) {
 				}
 			}
 			r.SampleClass("pos2/honest", rep)
+			if n == 2 && vi == 0 {
+				// the asserting circuit through the real prover and verifier of the builder's back-end
+				nonce := newNonce()
+				w, _ := frontend.NewWitness(pos2Assignment(nonce, a, bb), k.mod)
+				stage, err := proveVerify(b, ccsA, w)
+				takeTap(nonce)
+				backend := map[string]string{"r1cs": "groth16", "scs": "plonk"}[b]
+				if err != nil {
+					r.Violation("provers/"+backend+"-fails-on-honest-gkr-poseidon2-circuit:"+stage, short(err), rep)
+				} else {
+					r.Count("provers.verified", 1)
+					r.Count("provers.verified."+backend+".gkr-poseidon2", 1)
+				}
+			}
 		}
 
 		// ---- adversarial
